@@ -148,6 +148,7 @@ func c07Exec(tr *vh.Transcript, ops []string) {
 			fmt.Sscan(f[3], &dl)
 			tid := serial
 			serial++
+			cidOf := f[1]
 			s.AddTask(f[1], mustURL("stratum+tcp://x:@"+f[1]+"dest:1"), float64(job),
 				func(diff float64, ID string) { rec.add("onsubmit %d %d", tid, int64(diff)) },
 				func(ID string, hr float64, rem float64) {
@@ -156,7 +157,12 @@ func c07Exec(tr *vh.Transcript, ops []string) {
 						rec.add("still-eligible-during-ondisconnect %d", tid)
 					}
 				},
-				func(ID string, hr float64, rem float64, err error) { rec.add("onend %d %d %s", tid, int64(rem), c07EndKind(err)) },
+				func(ID string, hr float64, rem float64, err error) {
+					rec.add("onend %d %d %s", tid, int64(rem), c07EndKind(err))
+					if len(s.GetTasksByID(cidOf)) == 0 { // the owner is told before the slot is freed: the task still counts
+						rec.add("ended-after-the-slot-was-freed %d", tid)
+					}
+				},
 				start.Add(time.Duration(dl)))
 		case "remove":
 			s.RemoveTasksByID(f[1])
@@ -279,6 +285,7 @@ func c07SlowExec(tr *vh.Transcript, ops []string) {
 			fmt.Sscan(f[3], &dl)
 			tid := serial
 			serial++
+			cidOf := f[1]
 			s.AddTask(f[1], mustURL("stratum+tcp://x:@"+f[1]+"dest:1"), float64(job),
 				func(diff float64, ID string) { rec.add("onsubmit %d %d", tid, int64(diff)) },
 				func(ID string, hr float64, rem float64) {
@@ -287,7 +294,12 @@ func c07SlowExec(tr *vh.Transcript, ops []string) {
 						rec.add("still-eligible-during-ondisconnect %d", tid)
 					}
 				},
-				func(ID string, hr float64, rem float64, err error) { rec.add("onend %d %d %s", tid, int64(rem), c07EndKind(err)) },
+				func(ID string, hr float64, rem float64, err error) {
+					rec.add("onend %d %d %s", tid, int64(rem), c07EndKind(err))
+					if len(s.GetTasksByID(cidOf)) == 0 { // the owner is told before the slot is freed: the task still counts
+						rec.add("ended-after-the-slot-was-freed %d", tid)
+					}
+				},
 				start.Add(time.Duration(dl)))
 		case "sremove":
 			s.RemoveTasksByID(f[1])
